@@ -84,6 +84,13 @@ def rule_default_wrap(ctx, px):
                 optsrc = tpl.elts[1]
     fb, optvar = f, None
     if isinstance(optsrc, ast.Name):
+        # a local that merely holds what a helper method built is the helper's dict
+        asg = [n_.value for n_ in ast.walk(f.node) if isinstance(n_, (ast.Assign, ast.AnnAssign)) and n_.value is not None
+               and any(isinstance(t_, ast.Name) and t_.id == optsrc.id for t_ in (n_.targets if isinstance(n_, ast.Assign) else [n_.target]))]
+        if len(asg) == 1 and isinstance(asg[0], ast.Call) and isinstance(asg[0].func, ast.Attribute) and isinstance(asg[0].func.value, ast.Name) \
+                and asg[0].func.value.id in ("self", "cls") and f.cls is not None and asg[0].func.attr in f.cls.methods:
+            optsrc = asg[0]
+    if isinstance(optsrc, ast.Name):
         optvar = optsrc.id
     elif isinstance(optsrc, ast.Call) and isinstance(optsrc.func, ast.Attribute) and isinstance(optsrc.func.value, ast.Name) and optsrc.func.value.id in ("self", "cls") \
             and f.cls is not None and optsrc.func.attr in f.cls.methods:
@@ -273,20 +280,31 @@ def rule_order(ctx, px):
         ok = len(a.args) == 1 and isinstance(a.args[0], ast.Starred)
         if ok:
             src = a.args[0].value
-            vals, where = [], f
-            if isinstance(src, ast.Name):
-                vals = [n_.value for n_ in ast.walk(f.node) if isinstance(n_, ast.Assign) and any(isinstance(t_, ast.Name) and t_.id == src.id for t_ in n_.targets)]
-            elif isinstance(src, ast.Call) and isinstance(src.func, ast.Attribute) and isinstance(src.func.value, ast.Name) and src.func.value.id in ("self", "cls") \
-                    and f.cls is not None and src.func.attr in f.cls.methods and not src.args and not src.keywords:
-                where = f.cls.methods[src.func.attr]       # built by a helper method: what it can return
-                vals = [r_.value for r_ in ast.walk(where.node) if isinstance(r_, ast.Return) and r_.value is not None]
+            ALLOWED = ("[]", "self._args.configuration", "[self._args.configuration]", "list(self._args.configuration)")
 
-            def _plain(v_):
+            def _values(e, where, depth=0):
+                """(expression, function it lives in) pairs the starred argument can stand for: a local's assignments, what a helper method returns"""
+                if depth > 3:
+                    return [(e, where)]
+                if isinstance(e, ast.Name):
+                    asg = [n_.value for n_ in ast.walk(where.node) if isinstance(n_, ast.Assign) and any(isinstance(t_, ast.Name) and t_.id == e.id for t_ in n_.targets)]
+                    if asg:
+                        return [x for v_ in asg for x in _values(v_, where, depth + 1)]
+                if isinstance(e, ast.Call) and isinstance(e.func, ast.Attribute) and isinstance(e.func.value, ast.Name) and e.func.value.id in ("self", "cls") \
+                        and where.cls is not None and e.func.attr in where.cls.methods and not e.args and not e.keywords:
+                    h = where.cls.methods[e.func.attr]
+                    rets = [r_.value for r_ in ast.walk(h.node) if isinstance(r_, ast.Return) and r_.value is not None]
+                    if rets:
+                        return [x for v_ in rets for x in _values(v_, h, depth + 1)]
+                return [(e, where)]
+
+            def _plain(v_, where):
                 v_ = pyfront.subst_locals(where.node, v_)
                 while isinstance(v_, ast.Call) and ast.unparse(v_.func) in ("typing.cast", "cast") and len(v_.args) == 2:
                     v_ = v_.args[1]
                 return ast.unparse(v_)
-            ok = bool(vals) and all(_plain(v_) in ("[]", "self._args.configuration", "[self._args.configuration]", "list(self._args.configuration)") for v_ in vals)
+            vals = _values(src, f)
+            ok = bool(vals) and all(_plain(v_, w_) in ALLOWED for v_, w_ in vals)
         ctx.ob(R, f.module.rel, f"{f.short} :: all --configuration files are passed, in command-line order", ok, "", a.lineno)
     # lazily loaded built-ins: config property
     lcl = px.cls("nunavut.lang._language", "LanguageClassLoader")
